@@ -341,6 +341,7 @@ func runLife(e *Env, focus string) {
 	})
 
 	// ---- user closers
+	over := false
 	for k := 0; k < nClosers; k++ {
 		k := k
 		useDetach := detach && k == 0
@@ -349,8 +350,11 @@ func runLife(e *Env, focus string) {
 			// Close racing with the accept path itself is the business of the C13 scenarios
 			simrt.WaitUntil("connection accepted", func() bool {
 				svr := evl.(*eventLoop).svr
-				return l.conn != nil && l.prepEnd >= 0 && svr != nil && svr.connections.Len() > 0
+				return over || (l.conn != nil && l.prepEnd >= 0 && svr != nil && svr.connections.Len() > 0)
 			})
+			if over {
+				return // the connection never came to be tracked (closed during its accept): nothing to close
+			}
 			if e.Chance(1, 2) {
 				simrt.Sleep(int64(e.Pick(1, 3, 20)) * int64(time.Millisecond) / 2)
 			}
@@ -400,6 +404,8 @@ func runLife(e *Env, focus string) {
 	if peer >= 0 {
 		vsys.HClose(peer)
 	}
+	over = true // lets tasks that are still waiting for something that never happened finish
+	simrt.WaitQuiescent(false)
 	simrt.SetMonitor(nil)
 	e.Teardown()
 	l.checkDescriptors()
